@@ -1,13 +1,18 @@
 ----------------------------- MODULE TraceScale -----------------------------
-(* E2 for C15: one trace per scale, lines in Gregorian day order.         *)
+(* E2 for C15: one trace per scale, Day lines in Gregorian day order,     *)
+(* followed by HDay lines (Hijri dates converted to Gregorian and back).  *)
 EXTENDS Scale, TLC, Json, IOUtils, FiniteSets, Integers
 Tr == ndJsonDeserialize(IOEnv.TRACE)
 N == Len(Tr)
 Consecutive(k) == k > 1 /\ GDay(Tr[k]) = GDay(Tr[k - 1]) + 1
-Accepted == {k \in 1..N : "crash" \notin DOMAIN Tr[k] /\ ~Rejected(Tr[k])}
+Accepted == {k \in 1..N : Tr[k].e = "Day" /\ "crash" \notin DOMAIN Tr[k] /\ ~Rejected(Tr[k])}
 Verdict(k) ==
   LET r == Tr[k] IN
   IF "crash" \in DOMAIN r THEN "bad"
+  ELSE IF r.e = "HDay" THEN
+       (* the other direction, Hijri dates far beyond any table included: a date is either rejected *)
+       (* or it is the image of its own Gregorian image - never mapped to some day it is not     *)
+       IF r.g = <<0, 0, 0>> THEN "skip" ELSE IF r.back = r.h THEN "ok" ELSE "bad"
   ELSE IF Rejected(r) THEN
        (* a rejected day strictly inside the accepted span is a hole in the bijection *)
        IF (\E a \in Accepted : a < k) /\ (\E b \in Accepted : b > k) THEN "bad" ELSE "skip"
